@@ -23,6 +23,7 @@ type Obligation struct {
 	fc     *FuncCtx
 	Res    SolverResult
 	Hidden bool
+	ResultTerms []string // SMT terms of the returned values (post obligations)
 }
 
 type loopInfo struct {
@@ -862,7 +863,13 @@ func (fc *FuncCtx) execReturn(ret *ssa.Return, st *State, reach string) {
 	}
 	for j, e := range fc.C.Ensures {
 		g := fc.evalBool(env, e.E)
+		before := len(fc.obls)
 		fc.oblige(fmt.Sprintf("post%d%s", j, suffix), "post", reach, g, ret.Pos(), e.Text)
+		if len(fc.obls) > before {
+			for _, rv := range results {
+				fc.obls[len(fc.obls)-1].ResultTerms = append(fc.obls[len(fc.obls)-1].ResultTerms, rv.T)
+			}
+		}
 	}
 	fc.frameObligations(st, reach, suffix, ret.Pos())
 }
